@@ -84,8 +84,12 @@ fn extract_bracket_expr(pattern: &str) -> Option<(String, &str)> {
                     if matches!(delim, '.' | '=' | ':') {
                         let rest = chars.as_str();
                         let end = rest.find([delim, ']'])? + 2;
-                        expr.push_str(&rest[..end]);
-                        chars = rest[end..].chars();
+                        // The class name must be closed by its delimiter and a ']'
+                        // that are still inside the pattern ("[[:]" is not).
+                        let class = rest.get(..end)?;
+                        let tail = rest.get(end..)?;
+                        expr.push_str(class);
+                        chars = tail.chars();
                     }
                 }
             }
